@@ -100,7 +100,7 @@ def r1_ascii_field(ctx):
         numlen, ndig, perline = hp["numlen"], hp["digits"], hp["perline"]
         # every value is printed in an E field of exactly the announced width and digits
         data = [f for l in run.lines if l.is_data for f in l.txt.fields()]
-        ok = bool(data) and all(f.conv == "E" and same(f.width, numlen) and same(f.prec, ndig) for f in data)
+        ok = bool(data) and all(f.conv in ("E", "e") and same(f.width, numlen) and same(f.prec, ndig) for f in data)
         ctx.check(ok, f"{fn.name}: every value is printed as %<numlen>.<digits>E with the field width and digits the header announces", fn,
                   None if ok else [repr(f)[:120] for f in data[:3]])
         if layout == "dense":
@@ -116,8 +116,6 @@ def r1_ascii_field(ctx):
                       None if ok else {"numlen": repr(numlen), "widest": repr(widest),
                                        "witness": "[[-1.5e-150, 2], [3, 4]] written with binary=False: the value takes numlen + 1 characters and fuses with its neighbour"},
                       key="C04-R1|OP4._write_ascii_header|numlen < digits + 8")
-            ok = hp["ann"].startswith("1P,#E#.#")
-            ctx.check(ok, "_write_ascii_header: the header announces 1P,<perline>E<numlen>.<digits>", fn, None if ok else hp["ann"])
             ok = is_rat(perline) and is_rat(numlen) and same(perline, F.fn("floordiv", F.const(80), numlen))
             ctx.check(ok, "_write_ascii_header: perline = 80 // numlen (a line never exceeds 80 columns)", fn, None if ok else repr(perline), nontrivial=False)
         # the loader recovers perline and numlen from the announcement and cuts lines of perline * numlen characters
@@ -172,10 +170,6 @@ def r2_headers(ctx):
             ctx.check(ok, f"{fn.name} ({run.regime()}): the header integer fields are wide enough for every admissible dimension"
                           f"{' including the minus sign of the bigmat flag' if neg else ''}", run.header.node,
                       None if ok else {"widths": w, "needed for rows": need_rows})
-            marker = hp["ann"].rstrip("\n").endswith("|I16")
-            ok = marker == (w[0] == 16 and w[1] == 16) and (w[0] in (8, 16)) and w[0] == w[1]
-            ctx.check(ok, f"{fn.name} ({run.regime()}): the |I16 marker is written exactly when 16-wide integers are used", run.header.node,
-                      None if ok else {"widths": w, "announcement": hp["ann"]})
             lr = L.load(run)
             got = None
             if isinstance(lr.ret, tuple) and len(lr.ret) == 4 and lr.init is not None:
@@ -271,9 +265,6 @@ def r3_string_headers(ctx):
                 if len(ch) != n_expected or any(not is_rat(x) for x in ch):
                     ctx.check(False, f"{tag}: column header has {n_expected} integer fields", run.colhdr.node, repr(ch)[:200])
                     continue
-                if not run.binary:
-                    w = [const_int(f.width) if f.width is not None else None for f in run.colhdr.ints]
-                    ctx.check(w == [8, 8, 8], f"{tag}: column header is three 8-wide integer fields", run.colhdr.node, None if w == [8, 8, 8] else w)
                 judge(ctx, ch[off], run.col + 1, f"{tag}: column header announces column + 1 (1-based)", run.colhdr.node)
                 lr = L.load(run)
                 bad = lr.bads()
@@ -327,7 +318,9 @@ def r3_string_headers(ctx):
                         judge(ctx, pa[4], nreal, f"{rdfn.name} <- {tag}: reads the announced number of reals", lr.put[3])
                 else:
                     # ---- sparse layouts: column header (column + 1, 0, nwords); strings (header word(s), values)
-                    judge(ctx, ch[off + 1], F.const(0), f"{tag}: column header's second field is 0 (marks a sparse layout)", run.colhdr.node)
+                    hi2 = run.ev.rng(ch[off + 1])[1]
+                    ctx.check(hi2 is not None and hi2 <= 0, f"{tag}: column header's second field is never positive (the loader tells a sparse layout by it)", run.colhdr.node,
+                              None if (hi2 is not None and hi2 <= 0) else repr(ch[off + 1])[:120])
                     if run.strhdr is None or run.r0 is None:
                         ctx.error(f"{tag}: string header record", fn)
                         continue
@@ -349,10 +342,6 @@ def r3_string_headers(ctx):
                             continue
                         judge(ctx, (sh[0], sh[1]), (Lw + 1, r0 + 1), f"{tag}: string header is (L + 1, first row + 1) with L = 2 * length * multiplier words", run.strhdr.node)
                         hwords = 2
-                    if not run.binary:
-                        w = [const_int(f.width) if f.width is not None else None for f in run.strhdr.ints]
-                        ok = all(x is not None for x in w) and (hwords == 1 or w == [8, 8])
-                        ctx.check(ok, f"{tag}: string header fields have constant widths" + (" (8, 8)" if hwords == 2 else ""), run.strhdr.node, None if ok else w)
                     if run.binary:
                         d = run.data
                         ok = d is not None and len(d.items) == 1 and d.items[0].code == "d"
@@ -372,7 +361,18 @@ def r3_string_headers(ctx):
                     nw = ch[off + 2]
                     sp = split_nwords(nw)
                     if sp is None:
-                        ctx.error(f"{tag}: declared nwords is a combination of the number of strings and the sum of their lengths", run.colhdr.node, repr(nw)[:300])
+                        # a formula in the recognised quantities only (number of strings, sum of their lengths) that has another shape is wrong;
+                        # anything else is a spelling the rule does not know
+                        it = run.str_iter
+                        known = set()
+                        if is_rat(it):
+                            sl = F.fn("slice", S.NONE, S.NONE, S.NONE)
+                            for v in (F.fn("len", it), F.fn("call:sum", F.fn("idx", it, F.fn("tuple", sl, F.const(1))))):
+                                known.add(atom_id(v))
+                        if is_rat(nw) and known and (nw.n.atoms() | nw.d.atoms()) <= known:
+                            ctx.fail(f"{tag}: declared nwords = {hwords} header word(s) per string + 2 words per double", run.colhdr.node, repr(nw)[:300])
+                        else:
+                            ctx.error(f"{tag}: declared nwords is a combination of the number of strings and the sum of their lengths", run.colhdr.node, repr(nw)[:300])
                     else:
                         ok = sp[0] == hwords and sp[1] == 2 * (2 if cplx else 1)
                         ctx.check(ok, f"{tag}: declared nwords = {hwords} header word(s) per string + 2 words per double", run.colhdr.node,
@@ -410,10 +410,27 @@ def r3_string_headers(ctx):
                         if ub and ua and ub[0] == ua[0] and ub[0].startswith("cmp:") and same(ub[1][1], ua[1][1]) and same(ub[1][0], nw):
                             dec = ub[1][0] - ua[1][0]
                             node = n
+                            btest = b
+                        elif ub and ua and ub[0] == ua[0] and ub[0].startswith("cmp:") and same(ub[1][0], ua[1][0]) and same(ub[1][1], nw):
+                            dec = ub[1][1] - ua[1][1]
+                            node = n
+                            btest = b
                     if dec is None:
                         ctx.error(f"{rdfn.name} <- {tag}: word counter of the string loop", rdfn, repr(inner)[:300])
                     else:
                         judge(ctx, dec, per, f"{rdfn.name} <- {tag}: each string consumes L + {hwords} words of the column's word count", node)
+                        # the loop runs while words remain and stops when the count reaches zero
+                        for a_id in (nw.n.atoms() if sp is not None else ()):
+                            lr.W.bounds.setdefault(a_id, (1, None))
+                        t_more = lr.ev.truth(btest)
+                        ub = unfn(btest)
+                        at_zero = None
+                        if ub and ub[0].startswith("cmp:") and len(ub[1]) == 2:
+                            l0, r0_ = [F.const(0) if same(x, nw) else x for x in ub[1]]
+                            at_zero = lr.ev.cmp_truth(ub[0][4:], l0, r0_)
+                        ok = t_more is True and at_zero is False
+                        ctx.check(ok, f"{rdfn.name} <- {tag}: strings are read while words remain and the loop stops when the count reaches zero", node,
+                                  None if ok else {"test": repr(btest)[:160], "with words left": t_more, "at zero": at_zero})
                 # ---- both: the sentinel column and the loop that stops at it
                 sv = None
                 if run.sentinel is not None:
@@ -438,6 +455,9 @@ def r3_string_headers(ctx):
                     t0 = lr.ev.truth(b)
                     t1 = lr.ev.truth(a) if a is not None else None
                     ok = t0 is True and t1 is False
+                    if ok and is_rat(a):
+                        # the column number taken from the next (here: the sentinel) header is 0-based like the first one
+                        ok = same(a, b.subs({sym_name(run.col): S.COLS}))
                     if is_bad(a) or is_bad(b):
                         ctx.fail(f"{rdfn.name} <- {tag}: reads columns until the sentinel (continues for a column below cols, stops at cols + 1)", n, (a if is_bad(a) else b).why)
                     else:
@@ -569,9 +589,9 @@ def boundary_sites(ctx, L, rows4):
 def r4_ranges_and_dispatch(ctx):
     L = lab(ctx)
     rows4 = L.rows4()
-    ctx.check(rows4 == BASE, "the nonbigmat writers switch to the bigmat layout at 2^16 rows, the base used to pack the nonbigmat string header "
-                             "(the row number of a string must stay below it)", L.init_fn, rows4)
-    if rows4 is None:
+    ctx.check(rows4 is not None and rows4 <= BASE, "the nonbigmat writers switch to the bigmat layout no later than at 2^16 rows, the base used to pack the "
+                                                    "nonbigmat string header (the row number of a string must stay below it)", L.init_fn, rows4)
+    if rows4 is None or rows4 > BASE:
         rows4 = BASE
     # every comparison against _rows4bigmat puts the boundary between 65535 and 65536 rows
     sites = boundary_sites(ctx, L, rows4)
@@ -592,31 +612,6 @@ def r4_ranges_and_dispatch(ctx):
     ok = origins >= {"writer", "loader", "skipper"}
     ctx.check(ok, "bigmat boundary rule bound to comparisons on the writer, the loader and the skipper side", OP4 + ":1",
               None if ok else {"comparisons": nsite, "sides": sorted(origins)}, nontrivial=False)
-    # nonbigmat writers emit the bigmat layout, and nothing else, from 65536 rows on
-    for enc in ENCS:
-        fn = wfn(ctx, enc, "nonbigmat")
-        for kind, cplx in SCEN[:1]:
-            big = [r for r in L.writer(enc, "nonbigmat", kind, cplx) if not r.raised and r.rows[0] >= rows4]
-            refs = [r for r in L.writer(enc, "bigmat", kind, cplx) if not r.raised]
-            ref = refs[0] if refs else None
-            small = [r for r in L.writer(enc, "nonbigmat", kind, cplx) if not r.raised and r.rows[1] is not None and r.rows[1] < rows4]
-            ok = bool(big) and ref is not None
-            detail = None
-            for r in big:
-                if not ok:
-                    break
-                cover = [x for x in refs if (x.rows[0] or 0) <= r.rows[0] and (x.rows[1] is None or (r.rows[1] is not None and r.rows[1] <= x.rows[1]))]
-                if not cover:
-                    ok = False
-                    detail = {"regime": r.regime(), "bigmat writer": "no regime of the bigmat writer covers it"}
-                    break
-                ta, tb = trace_of(r), trace_of(cover[0])
-                if len(ta) != len(tb) or not all(same(x, y) for x, y in zip(ta, tb)):
-                    ok = False
-                    detail = {"regime": r.regime(), "emitted": repr(ta)[:200], "bigmat writer": repr(tb)[:200]}
-            ctx.check(ok, f"{fn.name}: from {rows4} rows on it emits exactly what the bigmat writer emits (delegation before anything is written)", fn, detail)
-            ok = bool(small) and all(r.strhdr is not None and len(r.strhdr_vals()) == 1 for r in small)
-            ctx.check(ok, f"{fn.name}: below {rows4} rows the strings carry the one-word packed header", fn)
     # packed ranges: IS into the struct code it is packed with
     worst = None
     code = None
@@ -667,19 +662,6 @@ def r4_ranges_and_dispatch(ctx):
                       "and are refused before anything is written", gi, None if ok else res)
         ok = res["rows at the limit"][0] is False and res["cols at the limit"][0] is False
         ctx.check(ok, f"{enc} writers: dimensions up to ({rmax}, {cmax}) are accepted", gi, None if ok else res, nontrivial=False)
-
-
-def trace_of(run):
-    """the emitted records of a run as comparable values"""
-    out = []
-    if run.binary:
-        for it in run.items:
-            out.append(it.value if is_rat(it.value) else (it.value.atom() if isinstance(it.value, Txt) else F.sym("?")))
-            out.append(it.count)
-    else:
-        for l in run.lines:
-            out.append(l.txt.atom())
-    return out
 
 
 # ---------------------------------------------------------------------------------------------------------------------- R7
@@ -737,17 +719,16 @@ def r7_input_canonical(ctx):
             ev = S.run_func(W, dp, [F.sym("m")], "_ensure_dp")
             ret = ev.returns[-1][0] if ev.returns else None
             m = F.sym("m")
+            want = [F.fn("call:.astype", m, F.sym(target)), F.fn("call:.astype", m, F.sym("complex" if cplx else "float")),
+                    F.fn("call:.astype", m, F.fn("kw:dtype", F.sym(target)))]
             if already:
-                want = [m]
-            else:
-                want = [F.fn("call:.astype", m, F.sym(target)), F.fn("call:.astype", m, F.sym("complex" if cplx else "float")),
-                        F.fn("call:.astype", m, F.fn("kw:dtype", F.sym(target)))]
+                want = [m] + want
             ok = ret is not None and not is_unknown(ret) and any(same(ret, w) for w in want)
             if ret is None or (is_unknown(ret) and not is_bad(ret)):
                 ctx.error(f"_ensure_dp: {'complex' if cplx else 'real'} input, {'already' if already else 'not yet'} double precision", dp, repr(ret))
             else:
                 ctx.check(ok, f"_ensure_dp: {'complex' if cplx else 'real'} input {'that already is' if already else 'that is not'} "
-                              f"{'complex128' if cplx else 'float64'} -> {'returned as is' if already else 'converted to ' + target.split('.')[1]}", dp,
+                              f"{'complex128' if cplx else 'float64'} -> {'returned as is (or converted again)' if already else 'converted to ' + target.split('.')[1]}", dp,
                           None if ok else repr(ret)[:200])
     # ---- _get_header_info: type and multiplier
     gi = ctx.src.func(OP4, "OP4._get_header_info")
@@ -944,9 +925,9 @@ def r9_no_byte_reinterpretation(ctx):
 
 RULES = [
     ("C04-R1", r1_ascii_field, 6),
-    ("C04-R2", r2_headers, 30),
-    ("C04-R3", r3_string_headers, 120),
-    ("C04-R4", r4_ranges_and_dispatch, 12),
+    ("C04-R2", r2_headers, 40),
+    ("C04-R3", r3_string_headers, 150),
+    ("C04-R4", r4_ranges_and_dispatch, 8),
     ("C04-R7", r7_input_canonical, 14),
     ("C04-R8", r8_symmetry_test, 4),
     ("C04-R9", r9_no_byte_reinterpretation, 2),
